@@ -375,7 +375,9 @@ func generate(repo, out string) error {
 
 	// 2. comparator tables and kernels of the five column packages
 	var tables, kernels, kasts []string
-	for _, p := range []string{"icolumn", "fcolumn", "bcolumn", "scolumn", "ecolumn"} {
+	colPkgs := []string{"icolumn", "fcolumn", "bcolumn", "scolumn", "ecolumn"}
+	pkgFns := map[string]map[string]*ast.FuncDecl{}
+	for _, p := range colPkgs {
 		files := parseDir(filepath.Join(repo, "internal", p))
 		mt := mapTables(files, fconsts)
 		names := make([]string, 0, len(mt))
@@ -394,6 +396,7 @@ func generate(repo, out string) error {
 			tables = append(tables, fmt.Sprintf("  (%s, %s, [%s])", leanStr(p), leanStr(n), strings.Join(ents, ", ")))
 		}
 		fns := funcDecls(files)
+		pkgFns[p] = fns
 		fnames := make([]string, 0, len(fns))
 		for n := range fns {
 			fnames = append(fnames, n)
@@ -603,6 +606,20 @@ func generate(repo, out string) error {
 	kb.WriteString("/- GENERATED on every run by /verif/go/cmd/extract from /repo's source (tie T1). Do not edit. -/\nimport QF.Core.KExpr\nnamespace QF.Gen\n\n")
 	kb.WriteString("/-- filter kernels translated to the expression language `QF.KE`, by role: (package, function, shape, term) -/\ndef kernelAst : List (String × String × String × KE) := [\n" + strings.Join(kasts, ",\n") + "]\n\nend QF.Gen\n")
 	if err := writeIfChanged(filepath.Join(out, "Kernels.lean"), kb.Bytes()); err != nil {
+		return err
+	}
+
+	// 4d. the functions of the default evaluation context as terms of QF.FE (fast.go)
+	var fb bytes.Buffer
+	fb.WriteString("/- GENERATED on every run by /verif/go/cmd/extract from /repo's source (tie T1). Do not edit. -/\nimport QF.Core.FExpr\nnamespace QF.Gen\n\n")
+	fb.WriteString("/-- the functions of package function translated to the expression language `QF.FE`, by role: (qualified name, term) -/\ndef functionAst : List (String × FE) := [\n" + strings.Join(functionAsts("function", parseDir(filepath.Join(repo, "function"))), ",\n") + "]\n\nend QF.Gen\n")
+	if err := writeIfChanged(filepath.Join(out, "Functions.lean"), fb.Bytes()); err != nil {
+		return err
+	}
+
+	// 4c. the row comparators as terms of QF.CE / QF.FStmt (cast.go)
+	colConsts := compareResultConsts(parseDir(filepath.Join(repo, "internal", "column")))
+	if err := writeIfChanged(filepath.Join(out, "Compare.lean"), []byte(compareLean(colPkgs, pkgFns, colConsts))); err != nil {
 		return err
 	}
 
